@@ -213,6 +213,6 @@ def oracle(case, rec):
 
 
 SUBS = [
-    Sub('scores', oracle, strategy=cases, budget={'quick': 9600, 'thorough': 160000}),
+    Sub('scores', oracle, strategy=cases, budget={'quick': 9600, 'thorough': 160000}, fuzz={'thorough': 20000}),
     Sub('perfect', oracle, strategy=perfect_cases, budget={'quick': 1600, 'thorough': 32000}),
 ]
